@@ -154,6 +154,15 @@ impl BasicHeader {
         let raw_logical_terminal = block1[3..15].to_string();
         let session_number = block1[15..19].to_string();
         let sequence_number = block1[19..25].to_string();
+        if !block1[15..25].bytes().all(|b| b.is_ascii_digit()) {
+            return Err(ParseError::InvalidBlockStructure {
+                block: "1".to_string(),
+                message: format!(
+                    "Block 1 session and sequence numbers must be numeric, got {}{}",
+                    session_number, sequence_number
+                ),
+            });
+        }
 
         // Keep the full 12-character logical terminal as stored in the MT format
         // The padding is necessary for the MT format and we handle normalization in tests
@@ -416,6 +425,17 @@ impl ApplicationHeader {
                     });
                 }
 
+                // priority [+ delivery monitoring [+ obsolescence period]]: 17, 18 or 21 characters
+                if !matches!(block2.len(), 17 | 18 | 21) {
+                    return Err(ParseError::InvalidBlockStructure {
+                        block: "2".to_string(),
+                        message: format!(
+                            "Input Block 2 must be 17, 18 or 21 characters, got {}",
+                            block2.len()
+                        ),
+                    });
+                }
+
                 let raw_destination_address = block2[4..16].to_string();
                 let priority = block2[16..17].to_string();
 
@@ -500,6 +520,16 @@ impl ApplicationHeader {
                         block: "2".to_string(),
                         message: format!(
                             "Output Block 2 too short: expected at least 46 characters, got {}",
+                            block2.len()
+                        ),
+                    });
+                }
+
+                if block2.len() > 47 {
+                    return Err(ParseError::InvalidBlockStructure {
+                        block: "2".to_string(),
+                        message: format!(
+                            "Output Block 2 must be 46 or 47 characters, got {}",
                             block2.len()
                         ),
                     });
